@@ -108,13 +108,13 @@ def fam_cmd(name, cases_args, rule, exhaustive=True, shard=True, profiles=None, 
             "profiles": profiles or ["release", "chk"], "pinned": pinned}
 
 
-def fam_sweep(name, op, k, order, expect, theorem, rule, seed=1, stride=1, offset=0, alphabet="deck", profiles=None):
+def fam_sweep(name, op, k, order, expect, theorem, rule, seed=1, stride=1, offset=0, alphabet="deck", profiles=None, blank_case=None):
     """exhaustive implementation-only family: `ckc-probe sweep` runs the projection `op` on every k-subset of the deck (or
     k-multiset over deck + blank) in the given slot order; the model's line is the constant `expect` by `theorem`"""
     args = ["--op", op, "--k", str(k), "--order", str(order), "--alphabet", alphabet, "--seed", str(seed),
             "--stride", str(stride), "--offset", str(offset % max(1, stride))]
     return {"name": name, "sweep": args, "expect": expect, "theorem": theorem, "rule": rule, "exhaustive": stride == 1,
-            "categories": {}, "profiles": profiles or ["release"], "pinned": True}
+            "categories": {}, "profiles": profiles or ["release"], "pinned": True, "blank_case": blank_case}
 
 
 # ---- word-level families ------------------------------------------------------------------------
@@ -320,6 +320,13 @@ def c05_families(rng, tier):
     fams += sweeps(rng, tier, lambda k: "rankp %d" % k, "ok ok ok ok ok", "C05_rank_total",
                    "every ranking entry point returns normally", alphabet="deckblank", name="rankp_multisets",
                    quick_strides={6: (4, 16, 16), 7: (128, 512, 512)}, thorough_stride={7: 4})
+    st = 32 if tier == "quick" else 1
+    fams.append(fam_sweep("five_ordered_arrays", "rankp 5", 5, 0, "ok ok ok ok ok ok", "C05_rank_total + C05_blank_five",
+                          "ALL 53^5 = 418,195,493 ORDERED five-slot arrays over {52 cards, blank}%s: every entry point returns normally; an "
+                          "array holding a blank gets value 0 / Invalid (that constant is read off the model on the all-blank hand)"
+                          % ("" if st == 1 else " (1 of every %d, seeded offset)" % st), stride=st, offset=rng.below(st),
+                          alphabet="deckblank_ordered", profiles=["release"] if tier == "quick" else ["release", "chk"],
+                          blank_case="rankp 5 0 0 0 0 0"))
     if tier == "thorough":
         fams.append(fam_cmd("six_multisets_slice", ["multisets", "--k", "6", "--op", "rankp 6", "--stride", "8", "--offset", str(rng.below(8))],
                             "every 8th of the 6-slot multisets over {52 cards, blank}", exhaustive=False,
